@@ -109,7 +109,7 @@ package commands
 //@ func processFiles
 //@   props C01
 //@   at call commands.clean:1 assert dyntype(arg1__, "*os.File") && ptr_as(arg1__, "os.File") == outputFp && fpath(outputFp) == outputFile && fdata(outputFile) == ""
-//@   at call commands.clean:1 assert dyntype(arg2__, "*os.File") && ptr_as(arg2__, "os.File") == inputFp && fpath(inputFp) == filename && arg3__ == filename
+//@   at call commands.clean:1 assert dyntype(arg2__, "*os.File") && ptr_as(arg2__, "os.File") == inputFp && fpath(inputFp) == filename && arg3__ == filename && filename == fileSpecifiers["D"]
 //@ func (*github.com/git-lfs/git-lfs/v3/subprocess.Cmd).Run
 //@   assumed
 //@   props C01
